@@ -18,6 +18,7 @@ import (
 	"github.com/enbility/ship-go/hub"
 	"github.com/enbility/ship-go/mdns"
 
+	"verif/simnet"
 	"verif/simrt"
 )
 
@@ -397,11 +398,16 @@ type hubRig struct {
 	nodes map[string]*hubNode
 	order []string
 
-	pmu       sync.Mutex
-	prodSeq   int
-	prod      map[*api.ConnectionStateDetail]int // production order of pairing details
-	connIDs   map[any]int
-	provBySKI map[string]*etherProvider
+	pmu     sync.Mutex
+	prodSeq int
+	prod    map[*api.ConnectionStateDetail]int // production order of pairing details
+	connIDs map[any]int
+	// atRegister, if set, runs at the k-th entry into Hub.registerConnection (on
+	// the registering task): a place for a fault between "connection object
+	// created, pumps running" and "connection registered"
+	atRegister    func(node string, k int)
+	registrations int
+	provBySKI     map[string]*etherProvider
 }
 
 func (r *hubRig) connID(c any) int {
@@ -433,6 +439,17 @@ func (r *hubRig) probe(name string, args []any) {
 	case "hub.Hub.initateConnection":
 		if sd, ok := args[1].(*api.ServiceDetails); ok && sd != nil {
 			r.x.Ev("attempt", node, r.skiName(sd.SKI()), 0)
+		}
+	case "hub.Hub.registerConnection":
+		// the pumps of this connection are already running, it is not yet in the registry
+		r.pmu.Lock()
+		r.registrations++
+		k := r.registrations
+		f := r.atRegister
+		r.pmu.Unlock()
+		r.x.Ev("hub-register", node, "", k)
+		if f != nil {
+			f(node, k)
 		}
 	case "hub.Hub.HandleConnectionClosed":
 		completed, _ := args[2].(bool)
@@ -565,6 +582,19 @@ func (r *hubRig) skiName(ski string) string {
 		}
 	}
 	return ski
+}
+
+// cutNewest resets the most recently established transport connection of node.
+func (r *hubRig) cutNewest(node string) {
+	var newest *simnet.Conn
+	for _, cn := range r.x.Net.Conns() {
+		if cn.Node() == node && !cn.Closed() && !cn.Broken() && (newest == nil || cn.ID() > newest.ID()) {
+			newest = cn
+		}
+	}
+	if newest != nil {
+		newest.Cut()
+	}
 }
 
 // spawn runs f as a task of node n's current process instance without waiting
